@@ -107,3 +107,9 @@ package bundler
 // record to the package's "main" file (dual-package hazard). The metafile entry for that import is written from the
 // record AFTER this redirect, so the file it names is the file the bundle uses.
 //@ flow metafile-import-entry-follows-the-redirect C19: func=(*scanner).processScannedFiles ; in=bundler ; site=call Select ; when-arg=1:*MetafilePathStyle ; when-arg2=0:*s.results[call GetIndex(*.SourceIndex)].file.inputFile.Source.PrettyPaths ; scenario=metafile_dual_package_redirect ; arg-reads-after-store=0:ImportRecord.SourceIndex:*secondaryVisited*
+
+// C20 ("when Cancel / Rebuild returns, no callback of that build is still running"): ScanBundle hands every parse task
+// a slot on resultChannel and takes the results back itself, on every exit (the deferred drain covers a cancelled scan
+// whose tasks are still inside onResolve/onLoad callbacks). Taking them back on another goroutine lets ScanBundle, and
+// with it the build, return while plugin callbacks of that build are still executing.
+//@ guarded scan-collects-its-own-parse-results C20: func=ScanBundle ; in=bundler ; site=recv *resultChannel ; forbid-go=1
